@@ -636,6 +636,8 @@ class EVM:
         self.tr["addrs"].add(a)
         if not self.w.exists(a):
             return 0
+        if not self.w.get(a).code:
+            self.tr["extcodehash_codeless_existing"] = True  # known finding (C01): halmos answers 0 for every account without code
         return keccak_int(self.w.get(a).code)
 
 
